@@ -24,6 +24,7 @@
 
 #include "events.h"
 #include "harness_int.h"
+#include <functional>
 #include "qtlogger.h"
 
 using namespace QtLogger;
@@ -268,6 +269,24 @@ HandlerPtr build(const Node &n)
     }
     if (k == "probe")
         return make_probe_sink(n.id);
+    if (k == "rec" && n.b == 1 && C->receiver) {
+        // the same recorder as a SignalSink: a direct slot records the delivery inside the pipeline, the
+        // receiver object (main thread) gets the signal too - queued when emitted on another thread
+        auto ss = SignalSinkPtr::create();
+        int id = n.a;
+        QObject::connect(ss.data(), &SignalSink::message, [id](const QtLogger::LogMessage &m) {
+            note_thread();
+            int cid = parse_call_id(m);
+            QByteArray c = content_of(m, cid);
+            sim::ev(E_DELIVER, id, cid, 0, c.constData(), (size_t)c.size());
+        });
+        QObject::connect(ss.data(), &SignalSink::message, C->receiver, [id](const QtLogger::LogMessage &m) {
+            int cid = parse_call_id(m);
+            QByteArray c = content_of(m, cid);
+            sim::ev(E_SIGNAL_RX, id, cid, 0, c.constData(), (size_t)c.size());
+        });
+        return ss;
+    }
     if (k == "rec")
         return QSharedPointer<RecSink>::create(n.a);
     if (k == "gate")
@@ -660,7 +679,7 @@ void warm_up()
     (void)QDateTime::currentDateTime().date();
     QRegularExpression re(QStringLiteral("^a.*b$"));
     (void)re.match(QStringLiteral("axxb")).hasMatch();
-    qRegisterMetaType<QtLogger::LogMessage>("QtLogger::LogMessage");
+    // (the LogMessage meta-type is deliberately NOT registered here: that is the library's business)
     (void)QDir::tempPath();
     (void)QThread::currentThread();
 }
@@ -737,6 +756,19 @@ void run_child(const Plan &P, const std::string &rundir)
         install_quit_begin_marker();
     }
 
+    {
+        std::function<bool(const Node &)> has_sig = [&](const Node &n) {
+            if (n.kind == "rec" && n.b == 1)
+                return true;
+            for (auto &k : n.kids)
+                if (has_sig(k))
+                    return true;
+            return false;
+        };
+        if (C->app && has_sig(P.root))
+            C->receiver = new QObject();
+    }
+
     if (P.target == "singleton") {
         sim::install_exit_marker(); // registered before the singleton: runs after its destructor
         C->logger = Logger::instance();
@@ -784,6 +816,12 @@ void run_child(const Plan &P, const std::string &rundir)
     note_thread();
 
     run_ops(0, P.main_ops);
+
+    if (C->receiver && C->app) {
+        // whatever is still queued for the receiver of the signal sinks is delivered now
+        QCoreApplication::sendPostedEvents(C->receiver, QEvent::MetaCall);
+        sim::ev(E_PUMPED);
+    }
 
     for (int i = 0; i < 64; i++)
         C->own_sinks[i].reset(); // C08 thread slice: close (flush) the sinks
